@@ -14,3 +14,170 @@ package termincommittee
 //@   props C18
 //@   requires len(committeeMembers) >= 1
 //@   ensures [iff] (result == nil) == (leaderCandidateId == committeeMembers[v % len(committeeMembers)].Id)
+
+// ======================= single-node protocol contracts (C03 C04 C07 C08 C09 C10 C13) =======================
+//
+// Effects (a record stored, a message sent, the commit callback invoked, a view adopted) carry their justification as
+// a precondition taken from the property statements; it is an obligation at every site in this package.
+// `caller` is the TermInCommittee whose method makes the call. Ghost state (declared in /verif/specs/00base.smt2):
+// ppStored/ppHash (proposal stored per view), sentPrepare/sentCommit(+Hash), proposed, lastVC, ncommitted, and the
+// storage versions pver/cver/vcver.
+
+// everything a handler of this term may write (heap cells of live objects and ghost state)
+//@ modset TIC = termincommittee.TermInCommittee.preparedLocally, termincommittee.TermInCommittee.committedBlock, termincommittee.TermInCommittee.latestViewThatProcessedVCMOrNVM, state.State.height, state.State.view, M:S_state_HeightView:Int, ghost:ppStored, ghost:ppHash, ghost:sentPrepare, ghost:sentPrepareHash, ghost:sentCommit, ghost:sentCommitHash, ghost:proposed, ghost:lastVC, ghost:ncommitted, ghost:pver, ghost:cver, ghost:vcver, ghost:cancelled
+
+//@ pred IsMember(members []interfaces.CommitteeMember, id primitives.MemberId) = exists mi :: 0 <= mi && mi < len(members) && members[mi].Id == id
+//@ pred LeaderOf(members []interfaces.CommitteeMember, v primitives.View) = members[v % len(members)].Id
+//@ pred Signed(tic *TermInCommittee, hdr *protocol.BlockRef, snd *protocol.SenderSignature) = VerifiedMsg(tic.keyManager, hdr.BlockHeight(), hdr.Raw(), snd.MemberId(), snd.Signature())
+//@ pred TicOK(tic *TermInCommittee) = tic.State != nil && tic.messageFactory != nil && len(tic.committeeMembers) >= 4
+//@   | && SumMW(tic.committeeMembers, len(tic.committeeMembers)) < 2^64
+//@   | && tic.messageFactory.memberId == tic.myMemberId && tic.messageFactory.keyManager == tic.keyManager
+//@   | && IsMember(tic.committeeMembers, tic.myMemberId)
+
+// ghost send-log / proposal-log consistency (C10 Inv_tic clause 4) and "one commit per term" (C13)
+//@ pred GhostInv(tic *TermInCommittee) = (forall gv int :: sentCommit[gv] ==> ppStored[gv] && sentCommitHash[gv] == ppHash[gv])
+//@   | && (forall gv int :: sentPrepare[gv] ==> ppStored[gv] && sentPrepareHash[gv] == ppHash[gv])
+//@   | && (tic.committedBlock == nil ==> ncommitted == 0)
+
+// what every PREPARE in the log satisfies (C08); established at the store site, returned by the getters
+//@ pred PrepareOK(tic *TermInCommittee, pm *interfaces.PrepareMessage) = pm != nil && pm.content != nil
+//@   | && Signed(tic, pm.content.SignedHeader(), pm.content.Sender())
+//@   | && pm.content.SignedHeader().MessageType() == protocol.LEAN_HELIX_PREPARE
+//@   | && IsMember(tic.committeeMembers, pm.content.Sender().MemberId())
+//@   | && pm.content.Sender().MemberId() != LeaderOf(tic.committeeMembers, pm.content.SignedHeader().View())
+//@ pred CommitOK(tic *TermInCommittee, cm *interfaces.CommitMessage) = cm != nil && cm.content != nil
+//@   | && Signed(tic, cm.content.SignedHeader(), cm.content.Sender())
+//@   | && cm.content.SignedHeader().MessageType() == protocol.LEAN_HELIX_COMMIT
+//@   | && IsMember(tic.committeeMembers, cm.content.Sender().MemberId())
+
+// ---- Storage SPI (A-STORE) ----
+//@ iface interfaces.Storage.StorePrepare
+//@   requires [O8.2.verified] pp != nil && pp.content != nil && Signed(caller, pp.content.SignedHeader(), pp.content.Sender())
+//@   requires [O8.2.signed-type] pp.content.SignedHeader().MessageType() == protocol.LEAN_HELIX_PREPARE
+//@   requires [O8.2.member] IsMember(caller.committeeMembers, pp.content.Sender().MemberId())
+//@   requires [O8.2.not-from-leader] pp.content.Sender().MemberId() != LeaderOf(caller.committeeMembers, pp.content.SignedHeader().View())
+//@   requires [O8.2.height] pp.content.SignedHeader().BlockHeight() == caller.State.height
+//@   requires [O8.2.not-stale] pp.content.SignedHeader().View() >= caller.State.view
+//@   modifies ghost:pver
+//@   ensures pver == old(pver) + 1
+
+//@ iface interfaces.Storage.StoreCommit
+//@   requires [O8.3.verified] cm != nil && cm.content != nil && Signed(caller, cm.content.SignedHeader(), cm.content.Sender())
+//@   requires [O8.3.signed-type] cm.content.SignedHeader().MessageType() == protocol.LEAN_HELIX_COMMIT
+//@   requires [O8.3.member] IsMember(caller.committeeMembers, cm.content.Sender().MemberId())
+//@   requires [O8.3.height] cm.content.SignedHeader().BlockHeight() == caller.State.height
+//@   modifies ghost:cver
+//@   ensures cver == old(cver) + 1
+
+// first proposal stored for a view wins (C10: one accepted proposal per view)
+//@ iface interfaces.Storage.StorePreprepare
+//@   requires [O8.1.wellformed] ppm != nil && ppm.content != nil
+//@   requires [O8.1.height] ppm.content.SignedHeader().BlockHeight() == caller.State.height
+//@   modifies ghost:ppStored, ghost:ppHash
+//@   ensures ppStored[ppm.content.SignedHeader().View()]
+//@   ensures old(ppStored[ppm.content.SignedHeader().View()]) ==> ppHash[ppm.content.SignedHeader().View()] == old(ppHash[ppm.content.SignedHeader().View()])
+//@   ensures !old(ppStored[ppm.content.SignedHeader().View()]) ==> ppHash[ppm.content.SignedHeader().View()] == content(ppm.content.SignedHeader().BlockHash())
+//@   ensures forall ov int :: ov != ppm.content.SignedHeader().View() ==> ppStored[ov] == old(ppStored[ov]) && ppHash[ov] == old(ppHash[ov])
+
+//@ iface interfaces.Storage.GetPrepareSendersIds
+//@   ensures result == PIds(self, pver, blockHeight, view, blockHash)
+
+//@ iface interfaces.Storage.GetCommitSendersIds
+//@   ensures result == CIds(self, cver, blockHeight, view, blockHash)
+
+// the messages returned are stored ones (each satisfied its store precondition), are for exactly the queried key,
+// and are the messages of the ids returned by GetCommitSendersIds for the same key (same enumeration)
+//@ iface interfaces.Storage.GetCommitMessages
+//@   ensures result0 == CMsgs(self, cver, blockHeight, view, blockHash)
+//@   ensures result1 ==> len(result0) == len(CIds(self, cver, blockHeight, view, blockHash))
+//@   ensures forall i :: 0 <= i && i < len(result0) ==> CommitOK(caller, result0[i])
+//@     | && result0[i].content.SignedHeader().BlockHeight() == blockHeight && result0[i].content.SignedHeader().View() == view
+//@     | && result0[i].content.SignedHeader().BlockHash() == blockHash
+//@     | && result0[i].content.Sender().MemberId() == CIds(self, cver, blockHeight, view, blockHash)[i]
+
+//@ iface interfaces.Storage.GetPreprepareMessage
+//@   ensures result1 == ppStored[view]
+//@   ensures result1 ==> result0 != nil && result0.content != nil && result0.content.SignedHeader().View() == view
+//@     | && result0.content.SignedHeader().BlockHeight() == blockHeight && content(result0.content.SignedHeader().BlockHash()) == ppHash[view]
+
+// ---- effect boundaries of TermInCommittee ----
+
+// sending: the 5-line bodies (raw conversion + Communication SPI call) are trusted; the preconditions are C10.
+//@ func (*TermInCommittee).sendConsensusMessage
+//@   trusted
+//@   requires [send.kind] istype(message, *interfaces.PreprepareMessage) || istype(message, *interfaces.PrepareMessage) || istype(message, *interfaces.CommitMessage) || istype(message, *interfaces.NewViewMessage)
+//@   requires [O10.1.one-prepare-per-view] istype(message, *interfaces.PrepareMessage) ==> !sentPrepare[dyn(message, *interfaces.PrepareMessage).content.SignedHeader().View()]
+//@   requires [O10.1.prepare-in-current-view] istype(message, *interfaces.PrepareMessage) ==> dyn(message, *interfaces.PrepareMessage).content.SignedHeader().View() == tic.State.view
+//@   requires [O10.1.prepare-for-accepted-proposal] istype(message, *interfaces.PrepareMessage) ==> ppStored[dyn(message, *interfaces.PrepareMessage).content.SignedHeader().View()]
+//@     | && ppHash[dyn(message, *interfaces.PrepareMessage).content.SignedHeader().View()] == content(dyn(message, *interfaces.PrepareMessage).content.SignedHeader().BlockHash())
+//@   requires [O10.1.never-as-leader] istype(message, *interfaces.PrepareMessage) ==> tic.myMemberId != LeaderOf(tic.committeeMembers, dyn(message, *interfaces.PrepareMessage).content.SignedHeader().View())
+//@   requires [O10.5.one-commit-hash-per-view] istype(message, *interfaces.CommitMessage) && sentCommit[dyn(message, *interfaces.CommitMessage).content.SignedHeader().View()]
+//@     | ==> sentCommitHash[dyn(message, *interfaces.CommitMessage).content.SignedHeader().View()] == content(dyn(message, *interfaces.CommitMessage).content.SignedHeader().BlockHash())
+//@   requires [O10.4.commit-for-accepted-proposal] istype(message, *interfaces.CommitMessage) ==> ppStored[dyn(message, *interfaces.CommitMessage).content.SignedHeader().View()]
+//@     | && ppHash[dyn(message, *interfaces.CommitMessage).content.SignedHeader().View()] == content(dyn(message, *interfaces.CommitMessage).content.SignedHeader().BlockHash())
+//@   modifies ghost:sentPrepare, ghost:sentPrepareHash, ghost:sentCommit, ghost:sentCommitHash
+//@   ensures istype(message, *interfaces.PrepareMessage) ==> sentPrepare[dyn(message, *interfaces.PrepareMessage).content.SignedHeader().View()]
+//@     | && sentPrepareHash[dyn(message, *interfaces.PrepareMessage).content.SignedHeader().View()] == content(dyn(message, *interfaces.PrepareMessage).content.SignedHeader().BlockHash())
+//@   ensures istype(message, *interfaces.CommitMessage) ==> sentCommit[dyn(message, *interfaces.CommitMessage).content.SignedHeader().View()]
+//@     | && sentCommitHash[dyn(message, *interfaces.CommitMessage).content.SignedHeader().View()] == content(dyn(message, *interfaces.CommitMessage).content.SignedHeader().BlockHash())
+//@   ensures forall v int :: (!istype(message, *interfaces.PrepareMessage) || v != dyn(message, *interfaces.PrepareMessage).content.SignedHeader().View()) ==> sentPrepare[v] == old(sentPrepare[v]) && sentPrepareHash[v] == old(sentPrepareHash[v])
+//@   ensures forall v int :: (!istype(message, *interfaces.CommitMessage) || v != dyn(message, *interfaces.CommitMessage).content.SignedHeader().View()) ==> sentCommit[v] == old(sentCommit[v]) && sentCommitHash[v] == old(sentCommitHash[v])
+
+// the commit callback (leanhelixterm.CommitsToProof -> WorkerLoop.onCommit): C03 / C04 / C13
+//@ dep field:termincommittee.TermInCommittee.onCommit
+//@   params ctx block commitMessages
+//@   requires [O13.4.once-per-term] ncommitted == 0
+//@   requires [O3.1.nonempty] len(commitMessages) >= 1
+//@   requires [O3.1.commits-authentic] forall i :: 0 <= i && i < len(commitMessages) ==> CommitOK(caller, commitMessages[i])
+//@   requires [O3.1.one-certified-value] forall i :: 0 <= i && i < len(commitMessages) ==> commitMessages[i].content.SignedHeader().BlockHeight() == commitMessages[0].content.SignedHeader().BlockHeight()
+//@     | && commitMessages[i].content.SignedHeader().View() == commitMessages[0].content.SignedHeader().View()
+//@     | && commitMessages[i].content.SignedHeader().BlockHash() == commitMessages[0].content.SignedHeader().BlockHash()
+//@   requires [O3.1.height] commitMessages[0].content.SignedHeader().BlockHeight() == caller.State.height
+//@   requires [O4.1.block-of-accepted-proposal] block != nil && ppStored[commitMessages[0].content.SignedHeader().View()]
+//@     | && ppHash[commitMessages[0].content.SignedHeader().View()] == content(commitMessages[0].content.SignedHeader().BlockHash())
+//@   modifies state.State.height, state.State.view, M:S_state_HeightView:Int, ghost:ncommitted, ghost:pver, ghost:cver, ghost:vcver, ghost:cancelled
+//@   ensures ncommitted == old(ncommitted) + 1
+
+//@ func (*TermInCommittee).HandlePrepare
+//@   inv GhostInv(tic)
+//@   props C08 C10 C03
+//@   requires TicOK(tic)
+//@   requires [FilterOK] pm != nil && pm.content != nil && pm.content.SignedHeader().BlockHeight() == tic.State.height && pm.content.Sender().MemberId() != tic.myMemberId
+//@   modifies @TIC
+
+//@ func (*TermInCommittee).HandleCommit
+//@   inv GhostInv(tic)
+//@   props C08 C10 C03
+//@   requires TicOK(tic)
+//@   requires [FilterOK] cm != nil && cm.content != nil && cm.content.SignedHeader().BlockHeight() == tic.State.height && cm.content.Sender().MemberId() != tic.myMemberId
+//@   modifies @TIC
+
+//@ func (*TermInCommittee).checkPreparedLocally
+//@   inv GhostInv(tic)
+//@   props C10 C03
+//@   requires TicOK(tic)
+//@   requires blockHeight == tic.State.height
+//@   modifies @TIC
+//@   assert before call sendConsensusMessage [O10.4.prepared-certificate] isPrepared && len(quorumIds) == len(PIds(tic.storage, pver, blockHeight, view, blockHash)) + 1
+//@     | && (forall i :: 0 <= i && i < len(quorumIds) - 1 ==> quorumIds[i] == PIds(tic.storage, pver, blockHeight, view, blockHash)[i])
+
+//@ func (*TermInCommittee).checkCommitted
+//@   inv GhostInv(tic)
+//@   props C03 C04 C10 C13
+//@   requires TicOK(tic)
+//@   requires blockHeight == tic.State.height
+//@   modifies @TIC
+//@   assert before call onCommit [O3.1.quorum] isCommitted && (forall i :: 0 <= i && i < len(commitSenders) ==> commitSenders[i] == CIds(tic.storage, cver, blockHeight, view, blockHash)[i])
+//@     | && len(commitSenders) == len(CIds(tic.storage, cver, blockHeight, view, blockHash))
+
+//@ func (*TermInCommittee).sendCommitIfNotAlreadySent
+//@   props C10 C03
+//@   requires TicOK(tic)
+//@   inv GhostInv(tic)
+//@   requires [O10.4.commit-quorum-for-accepted-proposal] ppStored[view] && ppHash[view] == content(blockHash)
+//@   requires blockHeight == tic.State.height
+//@   modifies ghost:sentPrepare, ghost:sentPrepareHash, ghost:sentCommit, ghost:sentCommitHash
+//@   ensures tic.committedBlock == old(tic.committedBlock) && ncommitted == old(ncommitted) && tic.State == old(tic.State) && tic.State.height == old(tic.State.height)
+//@   ensures forall ov int :: ppStored[ov] == old(ppStored[ov]) && ppHash[ov] == old(ppHash[ov])
+//@   loop range commits
+//@     invariant true
